@@ -377,10 +377,10 @@ func (e *Engine) recheckHeld(n *node, qs []query) {
 						What: fmt.Sprintf("held %s reader of block %d: implementation %s, model %s", hr.label, hr.n, got, mt[qi]), Query: qj})
 				}
 			}
-			want := expected(st, q, hr.label == "head")
+			want := e.expectedOn(n, st, q, hr.label == "head")
 			if hr.label == "head" {
 				// live view: the head it was created at, or the current head
-				want = append(append([]string{}, want...), expected(cur, q, true)...)
+				want = append(append([]string{}, want...), e.expectedOn(n, cur, q, true)...)
 			}
 			e.stats["held:read:"+hr.label]++
 			if contains(want, got) {
@@ -394,7 +394,7 @@ func (e *Engine) recheckHeld(n *node, qs []query) {
 				e.hit("held:wrong-like-a-fresh-reader(reported-as-fresh)")
 				if hr.label == "head" {
 					// a live view: it is the CURRENT head that a fresh head reader answers for
-					e.reportFresh(n, "head", h-1, q, got, expected(cur, q, true), cur, nil, -1)
+					e.reportFresh(n, "head", h-1, q, got, e.expectedOn(n, cur, q, true), cur, nil, -1)
 				} else {
 					e.reportFresh(n, hr.label, hr.n, q, got, want, st, nil, -1)
 				}
